@@ -76,3 +76,14 @@ def _sig_x690_loop(v):
         and f.get("indefinite_length_octet") is True
         and f.get("in_x690") is True
     )
+
+
+@signature("engine-reboot-not-resynchronised")
+def _sig_reboot(v):
+    f = v.get("facts", {})
+    return (
+        v.get("kind") == "operation-fails-later-in-the-clients-life"
+        and f.get("agent_rebooted_since_discovery") is True
+        and "not-in-time-window" in (f.get("agent_verdicts") or [])
+        and f.get("exception") == "SnmpError"
+    )
